@@ -872,6 +872,98 @@ def _with_leaf(member, path):
         cur.setdefault(parts[-1], None)
     return d
 
+# ---------------------------------------------------------------- h. list slots given as one-shot iterables; strict bundles with members of unregistered types
+ITERABLES = [lambda v: iter(v), lambda v: (x for x in v), lambda v: map(lambda x: x, v), lambda v: filter(lambda x: True, v), lambda v: tuple(v), lambda v: list(v),
+             lambda v: dict.fromkeys(v).keys()]
+
+
+def list_slots_as_iterables(ci: int, ii: int, empty: bool) -> bool:
+    """
+    pre: 0 <= ci < NLC and ci % 4 == PARTNO % 4 and 0 <= ii < len(ITERABLES)
+    post: _
+    """
+    ci, ii, empty = pick(ci, NLC), pick(ii, len(ITERABLES)), pickb(empty)
+    with Native():
+        ok = run_iterable_case(ci, ii, empty)
+    V.reached()
+    return ok
+
+
+def _list_classes():
+    out = []
+    for ver, cat, name, cls, kw in gen.buildable()[0]:
+        if cat not in ("objects", "observables"):
+            continue
+        for pname, prop in cls._properties.items():
+            if type(prop).__name__ == "ListProperty" and pname in kw and isinstance(kw[pname], list) and all(isinstance(x, (str, int)) for x in kw[pname]):
+                out.append((ver, cat, name, cls, kw, pname))
+    return out
+
+
+LIST_CASES = _list_classes()
+NLC = len(LIST_CASES)
+
+
+def run_iterable_case(ci, ii, empty):
+    """a list property given through the constructor as any iterable (iterator, generator, map, filter, tuple, keys view), empty or not: what is
+    emitted is valid -- no empty list, required lists present"""
+    ver, cat, name, cls, kw, pname = LIST_CASES[ci]
+    value = [] if empty else list(kw[pname])
+    kw2 = dict(kw, **{pname: ITERABLES[ii](value)})
+    try:
+        o = cls(**kw2)
+    except (STIXError, ValueError, TypeError):
+        return True
+    out = json.loads(o.serialize())
+    try:
+        specmodel.validate(out, ver, cat, name, _MODEL)
+    except specmodel.Invalid:
+        return False
+    return (pname in out) == (not empty) and (empty or out[pname] == json.loads(json.dumps(value)))
+
+
+MEMBER_JUNK = [("id", "not-an-id"), ("id", 5), ("created", "yesterday"), ("created_by_ref", 12), ("labels", []), ("name", None), ("x", {}), ("modified", "2020-13-01T00:00:00Z"),
+               ("extensions", {}), ("type", "Bad_Type")]
+
+
+def strict_bundle_members(ji: int, et: int, form: int, ver21: bool) -> bool:
+    """
+    pre: 0 <= ji <= len(MEMBER_JUNK) and 0 <= et <= 3 and 0 <= form <= 2
+    post: _
+    """
+    ji, et, form, ver21 = pick(ji, len(MEMBER_JUNK) + 1), pick(et, 4), pick(form, 3), pickb(ver21)
+    with Native():
+        ok = run_bundle_member_case(ji, et, form, ver21)
+    V.reached()
+    return ok
+
+
+def run_bundle_member_case(ji, et, form, ver21):
+    """a strict bundle never emits a member it could not validate: a member of an unregistered type (with an extension entry of each kind that names
+    a new type, or none), clean or with one corruption, is refused -- the bundle's output contains only members built by library classes"""
+    ext_type = ["new-sdo", "new-sco", "new-sro", None][et]
+    m = {"type": "x-unregistered-thing", "spec_version": "2.1", "id": "x-unregistered-thing--" + gen.UU, "created": gen.TS, "modified": gen.TS, "name": "n"}
+    if ext_type:
+        m["extensions"] = {"extension-definition--" + gen.UU: {"extension_type": ext_type}}
+    if ji < len(MEMBER_JUNK):
+        k, v = MEMBER_JUNK[ji]
+        if k == "extensions" and not ext_type:
+            return True
+        m[k] = v
+    b = {"type": "bundle", "id": "bundle--" + gen.UU, "objects": [m]}
+    if not ver21:
+        b["spec_version"] = "2.0"
+    try:
+        if form == 0:
+            o = stix2.parse(b, allow_custom=False)
+        elif form == 1:
+            o = stix2.parse(json.dumps(b), allow_custom=False)
+        else:
+            o = (stix2.v21.Bundle if ver21 else stix2.v20.Bundle)(objects=[m], allow_custom=False)
+    except (STIXError, ValueError, TypeError):
+        return True
+    return all(isinstance(x, stix2.base._STIXBase) for x in o.get("objects", []))
+
 # ---------------------------------------------------------------- c'. presence-only co-constraints, table driven (symbolic presence flags)
 def _x509_21_list():
     return ['is_self_signed', 'hashes', 'version', 'serial_number', 'signature_algorithm', 'issuer']
